@@ -173,6 +173,34 @@ func runC14(c *core.Ctx) {
 				return w.Body.Bytes(), nil
 			}},
 	}
+	// the same without an index: the requested URL extends a registered location (the peer string is appended to it). It is not that
+	// location, so either the request is refused or the form posts to the registered location - for a registered path and a bare origin
+	for _, reg := range []struct{ name, loc string }{{"path", "https://peer.example.com/endpoint"}, {"origin", "https://peer.example.com"}} {
+		reg := reg
+		forms = append(forms, c14Form{name: "idp-response-sp-initiated-url-extending-registered-" + reg.name, tags: []string{"html", "form", "input", "input", "input", "script", "script"}, fields: []string{"RelayState"},
+			script:      []string{`document.getElementById('SAMLSubmitButton').style.visibility='hidden';`, `document.getElementById('SAMLResponseForm').submit();`},
+			fixedAction: reg.loc,
+			render: func(u, _, relay string) ([]byte, error) {
+				md := *spMD
+				sd := md.SPSSODescriptors[0]
+				sd.KeyDescriptors = nil
+				sd.AssertionConsumerServices = []saml.IndexedEndpoint{{Binding: saml.HTTPPostBinding, Location: reg.loc, Index: 1}}
+				md.SPSSODescriptors = []saml.SPSSODescriptor{sd}
+				idp := harness.NewIDP("idpec", harness.SPRegistry{md.EntityID: &md}, &saml.Session{ID: "s", NameID: "alice", Index: "i", CreateTime: samlgen.T0, ExpireTime: samlgen.T0.Add(time.Hour)})
+				idp.Signer, idp.Key, idp.SignatureMethod = samlgen.Key("idpec").Key, nil, "http://www.w3.org/2001/04/xmldsig-more#ecdsa-sha256"
+				asked := reg.loc + u
+				if u == "https://peer.example.com/endpoint" { // (the baseline rendering: the registered location itself)
+					asked = reg.loc
+				}
+				doc := authnRequestXML(samlgen.S(md.EntityID), samlgen.S(samlgen.IDPSSO), samlgen.S("2.0"), samlgen.S(samlgen.TS(samlgen.T0)), samlgen.S(asked), nil, "id-req-c14")
+				w := httptest.NewRecorder()
+				idp.ServeSSO(w, idpRequest("POST", doc, relay))
+				if w.Code != 200 || !strings.Contains(w.Body.String(), "SAMLResponse") {
+					return nil, fmt.Errorf("status %d", w.Code)
+				}
+				return w.Body.Bytes(), nil
+			}})
+	}
 
 	baselines := map[string]*htmlform.Form{}
 	baselineOf := func(f c14Form) *htmlform.Form {
